@@ -33,6 +33,16 @@ pub struct Hooks {
     /// enter/exit a region where schedule points are suppressed
     pub np_enter: fn(),
     pub np_exit: fn(),
+    /// a store to a shim atomic (address, value bits, width in bytes, SeqCst?), schedule
+    /// point included. true: the hook has performed the store itself, the shim must not
+    pub store: fn(usize, u64, u8, bool, &'static Location<'static>) -> bool,
+    /// a load from a shim atomic (address, width in bytes), schedule point included.
+    /// Some(bits): the hook has performed the load itself
+    pub load: fn(usize, u8, &'static Location<'static>) -> Option<u64>,
+    /// a read-modify-write of a shim atomic (address), schedule point included
+    pub rmw: fn(usize, &'static Location<'static>),
+    /// drain the calling thread's store buffer (fences, exclusive access)
+    pub flush: fn(),
 }
 
 static HOOKS: AtomicPtr<Hooks> = AtomicPtr::new(std::ptr::null_mut());
@@ -74,6 +84,66 @@ pub fn point() {
         (h.point)(Location::caller());
     }
 }
+
+#[inline]
+#[track_caller]
+fn store_hook(addr: usize, bits: u64, width: u8, seq_cst: bool) -> bool {
+    match hooks() {
+        Some(h) => (h.store)(addr, bits, width, seq_cst, Location::caller()),
+        None => false,
+    }
+}
+
+#[inline]
+#[track_caller]
+fn load_hook(addr: usize, width: u8) -> Option<u64> {
+    match hooks() {
+        Some(h) => (h.load)(addr, width, Location::caller()),
+        None => None,
+    }
+}
+
+#[inline]
+#[track_caller]
+fn rmw_hook(addr: usize) {
+    if let Some(h) = hooks() {
+        (h.rmw)(addr, Location::caller());
+    }
+}
+
+#[inline]
+fn flush_hook() {
+    if let Some(h) = hooks() {
+        (h.flush)();
+    }
+}
+
+/// value <-> bits for the store buffer
+pub trait Bits: Copy {
+    fn to_bits(self) -> u64;
+    fn from_bits(b: u64) -> Self;
+}
+impl Bits for bool {
+    fn to_bits(self) -> u64 {
+        self as u64
+    }
+    fn from_bits(b: u64) -> Self {
+        b != 0
+    }
+}
+macro_rules! bits_int {
+    ($($t:ty),*) => {$(
+        impl Bits for $t {
+            fn to_bits(self) -> u64 {
+                self as u64
+            }
+            fn from_bits(b: u64) -> Self {
+                b as $t
+            }
+        }
+    )*};
+}
+bits_int!(usize, isize, u64);
 
 pub struct NoPreempt(bool);
 pub fn no_preempt() -> NoPreempt {
@@ -285,8 +355,15 @@ impl std::ops::Sub<Instant> for Instant {
 ////////////////////////////////////////////////////////////////////////////////
 
 pub mod atomic {
-    pub use std::sync::atomic::{fence, Ordering};
+    pub use std::sync::atomic::Ordering;
     use std::sync::atomic as std_atomic;
+
+    /// a fence drains the store buffer of the calling thread
+    #[inline]
+    pub fn fence(o: Ordering) {
+        super::flush_hook();
+        std_atomic::fence(o)
+    }
 
     macro_rules! shim_int {
         ($name:ident, $t:ty) => {
@@ -307,27 +384,36 @@ pub mod atomic {
                     Self(std_atomic::$name::new(v))
                 }
                 pub fn get_mut(&mut self) -> &mut $t {
+                    super::flush_hook();
                     self.0.get_mut()
                 }
                 pub fn into_inner(self) -> $t {
+                    super::flush_hook();
                     self.0.into_inner()
                 }
                 #[track_caller]
                 #[inline]
                 pub fn load(&self, o: Ordering) -> $t {
-                    super::point();
-                    self.0.load(o)
+                    use super::Bits;
+                    let w = std::mem::size_of::<$t>() as u8;
+                    match super::load_hook(self as *const _ as usize, w) {
+                        Some(b) => <$t>::from_bits(b),
+                        None => self.0.load(o),
+                    }
                 }
                 #[track_caller]
                 #[inline]
                 pub fn store(&self, v: $t, o: Ordering) {
-                    super::point();
-                    self.0.store(v, o)
+                    use super::Bits;
+                    let w = std::mem::size_of::<$t>() as u8;
+                    if !super::store_hook(self as *const _ as usize, v.to_bits(), w, o == Ordering::SeqCst) {
+                        self.0.store(v, o)
+                    }
                 }
                 #[track_caller]
                 #[inline]
                 pub fn swap(&self, v: $t, o: Ordering) -> $t {
-                    super::point();
+                    super::rmw_hook(self as *const _ as usize);
                     self.0.swap(v, o)
                 }
                 #[track_caller]
@@ -339,7 +425,7 @@ pub mod atomic {
                     s: Ordering,
                     f: Ordering,
                 ) -> Result<$t, $t> {
-                    super::point();
+                    super::rmw_hook(self as *const _ as usize);
                     self.0.compare_exchange(c, n, s, f)
                 }
                 #[track_caller]
@@ -351,19 +437,19 @@ pub mod atomic {
                     s: Ordering,
                     f: Ordering,
                 ) -> Result<$t, $t> {
-                    super::point();
+                    super::rmw_hook(self as *const _ as usize);
                     self.0.compare_exchange(c, n, s, f)
                 }
                 #[track_caller]
                 #[inline]
                 pub fn fetch_and(&self, v: $t, o: Ordering) -> $t {
-                    super::point();
+                    super::rmw_hook(self as *const _ as usize);
                     self.0.fetch_and(v, o)
                 }
                 #[track_caller]
                 #[inline]
                 pub fn fetch_or(&self, v: $t, o: Ordering) -> $t {
-                    super::point();
+                    super::rmw_hook(self as *const _ as usize);
                     self.0.fetch_or(v, o)
                 }
             }
@@ -375,13 +461,13 @@ pub mod atomic {
                 #[track_caller]
                 #[inline]
                 pub fn fetch_add(&self, v: $t, o: Ordering) -> $t {
-                    super::point();
+                    super::rmw_hook(self as *const _ as usize);
                     self.0.fetch_add(v, o)
                 }
                 #[track_caller]
                 #[inline]
                 pub fn fetch_sub(&self, v: $t, o: Ordering) -> $t {
-                    super::point();
+                    super::rmw_hook(self as *const _ as usize);
                     self.0.fetch_sub(v, o)
                 }
             }
@@ -408,19 +494,23 @@ pub mod atomic {
         #[track_caller]
         #[inline]
         pub fn load(&self, o: Ordering) -> *mut T {
-            super::point();
-            self.0.load(o)
+            match super::load_hook(self as *const _ as usize, std::mem::size_of::<usize>() as u8) {
+                Some(b) => b as usize as *mut T,
+                None => self.0.load(o),
+            }
         }
         #[track_caller]
         #[inline]
         pub fn store(&self, v: *mut T, o: Ordering) {
-            super::point();
-            self.0.store(v, o)
+            let w = std::mem::size_of::<usize>() as u8;
+            if !super::store_hook(self as *const _ as usize, v as usize as u64, w, o == Ordering::SeqCst) {
+                self.0.store(v, o)
+            }
         }
         #[track_caller]
         #[inline]
         pub fn swap(&self, v: *mut T, o: Ordering) -> *mut T {
-            super::point();
+            super::rmw_hook(self as *const _ as usize);
             self.0.swap(v, o)
         }
     }
